@@ -93,7 +93,7 @@ func (h *Handler) HandleMessage(msg stanza.Message, t xmlstream.TokenReadEncoder
 	p := dataMessage{}
 	err := d.Decode(&p)
 	if err != nil {
-		return err
+		return refuseMalformed(t, msg)
 	}
 	return handlePayload(h, msg, p.Data, t)
 }
@@ -106,7 +106,7 @@ func (h *Handler) HandleIQ(iq stanza.IQ, t xmlstream.TokenReadEncoder, start *xm
 		p := openPayload{}
 		err := d.Decode(&p)
 		if err != nil {
-			return err
+			return refuseMalformed(t, iq)
 		}
 		return handleOpen(h, openIQ{
 			IQ:   iq,
@@ -140,7 +140,7 @@ func (h *Handler) HandleIQ(iq stanza.IQ, t xmlstream.TokenReadEncoder, start *xm
 		p := dataPayload{}
 		err := d.Decode(&p)
 		if err != nil {
-			return err
+			return refuseMalformed(t, iq)
 		}
 		return handlePayload(h, iq, p, t)
 	}
@@ -191,6 +191,17 @@ func handleOpen(h *Handler, iq openIQ, e xmlstream.Encoder) error {
 
 type errorResponder interface {
 	Error(stanza.Error) xml.TokenReader
+}
+
+// refuseMalformed answers a payload that could not be unmarshaled (for example
+// because its seq or block-size attribute is not a 16 bit number).
+// This is the peer's mistake, not a reason to stop serving the session.
+func refuseMalformed(e xmlstream.Encoder, errResp errorResponder) error {
+	_, err := xmlstream.Copy(e, errResp.Error(stanza.Error{
+		Type:      stanza.Modify,
+		Condition: stanza.BadRequest,
+	}))
+	return err
 }
 
 func handlePayload(h *Handler, errResp errorResponder, p dataPayload, e xmlstream.Encoder) error {
